@@ -85,6 +85,10 @@ class Acc:
             self.violation("event-loop-monopolised", "one event-loop iteration of a client session did not finish within the stall limit (20 s wall clock): "
                            "the code running in it never yields; " + reason, {"session": reason})
             return
+        if "close-never-returned" in reason:
+            self.violation("close-never-returns", "at the end of a simulated session close() had not returned 120 virtual seconds after it was called "
+                           "(something it waits for never happens); " + reason, {"session": reason})
+            return
         if reason not in self.inconclusive:
             self.inconclusive.append(reason)
 
